@@ -76,7 +76,7 @@ func c08ShuntingYard(operands []string, ops []string) string {
 	return out[0]
 }
 
-var c08Atoms = []string{"a", "b", "c", "d", "e", "f"}
+var c08Atoms = []string{"a", "b", "c", "d", "e", "f", "h", "i", "j", "k", "l", "m", "n", "o", "p", "q", "r"}
 
 // one driver for all chain cases
 func c08Driver(maxOps int, formsUpTo int, breaksUpTo int, maxNonAtomic, maxBreaks int) func(c *explore.Chooser) *c08Case {
@@ -151,6 +151,41 @@ func c08Driver(maxOps int, formsUpTo int, breaksUpTo int, maxNonAtomic, maxBreak
 	}
 }
 
+// long chains: beyond the completely enumerated lengths the chain is (a) periodic in every ordered pair of
+// operators, at every length up to maxLen, and (b) every sequence of rank classes (one representative
+// operator per class) of length 5..rankLen.  A parser that recurses per rank, keeps a fixed-size operator
+// stack or re-associates after a number of operands behaves differently only on chains this long.
+func c08LongDriver(maxLen, rankLen int) func(c *explore.Chooser) *c08Case {
+	reps := []string{"&&", "=", "+", "*"}
+	return func(c *explore.Chooser) *c08Case {
+		var ops []string
+		if c.Choose(2) == 0 {
+			n := 5 + c.Choose(maxLen-4)
+			o1, o2 := c08Ops[c.Choose(len(c08Ops))], c08Ops[c.Choose(len(c08Ops))]
+			for i := 0; i < n; i++ {
+				if i%2 == 0 {
+					ops = append(ops, o1)
+				} else {
+					ops = append(ops, o2)
+				}
+			}
+		} else {
+			n := 5 + c.Choose(rankLen-4)
+			for i := 0; i < n; i++ {
+				ops = append(ops, reps[c.Choose(len(reps))])
+			}
+		}
+		var sb strings.Builder
+		trees := []string{c08Atoms[0]}
+		sb.WriteString(c08Atoms[0])
+		for i, op := range ops {
+			sb.WriteString(" " + op + " " + c08Atoms[i+1])
+			trees = append(trees, c08Atoms[i+1])
+		}
+		return &c08Case{src: sb.String(), expected: c08ShuntingYard(trees, ops), nops: len(ops), kind: "long"}
+	}
+}
+
 // pipe chains: e0 |> s1 |> ... with e0 a chain of <= 2 operators
 func c08PipeDriver(maxE0Ops, maxStages int) func(c *explore.Chooser) *c08Case {
 	return func(c *explore.Chooser) *c08Case {
@@ -208,7 +243,7 @@ func c08Render(cases []*c08Case) string {
 	var sb strings.Builder
 	sb.WriteString(c08Prelude)
 	for i, cs := range cases {
-		fmt.Fprintf(&sb, "let f%d (a:int) (b:int) (c:int) (d:int) (e:int) (f:int) (x:int) (y:int) =\n  %s\n\n", i, cs.src)
+		fmt.Fprintf(&sb, "let f%d (a:int) (b:int) (c:int) (d:int) (e:int) (f:int) (x:int) (y:int) (h:int) (i:int) (j:int) (k:int) (l:int) (m:int) (n:int) (o:int) (p:int) (q:int) (r:int) =\n  %s\n\n", i, cs.src)
 	}
 	return sb.String()
 }
@@ -381,9 +416,11 @@ func checkC08(c *core.Ctx) {
 	if c.Thorough() {
 		collect(c08Driver(4, 3, 4, 2, 2)) // chains <= 4 ops; forms on <= 3 ops (<= 2 non-atomic); <= 2 breaks on all
 		collect(c08PipeDriver(2, 3))
+		collect(c08LongDriver(16, 8))
 	} else {
 		collect(c08Driver(3, 2, 3, 2, 1)) // chains <= 3 ops; forms on <= 2 ops; <= 1 break
 		collect(c08PipeDriver(1, 2))
+		collect(c08LongDriver(12, 6))
 	}
 	c.Set("explorer", map[string]any{"executions": st.Executions, "max_depth": st.MaxDepth, "bound": "none (complete enumeration of the bounded space)"})
 	c.Count(0, st.States, st.Transitions, 0)
